@@ -329,7 +329,7 @@ func runEntry(prog *ssa.Program, fn *ssa.Function, name string, fixed map[string
 // acquireSlot limits the number of gosmt processes running at the same time
 // on this machine (each one also races several solver processes).
 func acquireSlot() func() {
-	n := 10
+	n := 14
 	if v := os.Getenv("VERIF_SLOTS"); v != "" {
 		fmt.Sscanf(v, "%d", &n)
 	}
